@@ -1,12 +1,13 @@
 #!/bin/bash
+V=${VERIF_ROOT:-/verif}
 # tryseed.sh <seed-id> <check-id>... : run checks against a private clone of /repo with the seeded change applied
 # (never touches /repo; safe while background runs are using it).
 set -u
 seed=$1; shift
 W=/tmp/tryseed-$seed
 rm -rf $W; git clone -q /repo $W/repo || exit 2
-git -C $W/repo apply /verif/seeded/$seed/patch.diff || { echo "patch does not apply"; exit 2; }
+git -C $W/repo apply $V/seeded/$seed/patch.diff || { echo "patch does not apply"; exit 2; }
 mkdir -p $W/build
-for c in "$@"; do VERIF_REPO=$W/repo VERIF_BUILD=$W/build /verif/check $c | grep -v KNOWN-FINDING | sed "s/^/[$seed] /"; done
+for c in "$@"; do VERIF_REPO=$W/repo VERIF_BUILD=$W/build $V/check $c | grep -v KNOWN-FINDING | sed "s/^/[$seed] /"; done
 rm -rf /tmp/tryseed-keep/$seed; mkdir -p /tmp/tryseed-keep/$seed; cp -r $W/build/evidence /tmp/tryseed-keep/$seed/ 2>/dev/null
 rm -rf $W
